@@ -204,11 +204,21 @@ func (s *stubSession) Status(mailbox string, options *imap.StatusOptions) (*imap
 
 func (s *stubSession) Append(mailbox string, r imap.LiteralReader, options *imap.AppendOptions) (*imap.AppendData, error) {
 	i, err := s.rec("Append", mailbox, fmt.Sprint(r.Size()))
-	n, _ := io.Copy(io.Discard, r)
-	s.b.calls[i].Bytes = n
 	if err != nil {
+		// a backend that refuses an APPEND (no such mailbox, over quota) typically does so without reading the message, or
+		// after reading part of it: by call index nothing, half, or all of it
+		var n int64
+		switch i % 3 {
+		case 1:
+			n, _ = io.CopyN(io.Discard, r, r.Size()/2)
+		case 2:
+			n, _ = io.Copy(io.Discard, r)
+		}
+		s.b.calls[i].Bytes = n
 		return nil, err
 	}
+	n, _ := io.Copy(io.Discard, r)
+	s.b.calls[i].Bytes = n
 	return &imap.AppendData{UID: 9, UIDValidity: 1}, nil
 }
 
